@@ -663,7 +663,11 @@ func (g *c16Gen) faults(i int, seed uint64) *c16Scenario {
 	sc.Ctl.Finalize = r.Chance(1, 3)
 	f := c16Faults[r.Intn(3)]
 	kind := sc.Target["kind"].(string)
-	switch r.Intn(5) {
+	mode := r.Intn(5)
+	if mode == 0 && !rule.HasStatus {
+		mode = 1
+	}
+	switch mode {
 	case 0:
 		f.Verb, f.Kind, f.AfterHook = "updatestatus", kind, true
 		sc.Features = append(sc.Features, "fault-on-status-write")
@@ -671,11 +675,43 @@ func (g *c16Gen) faults(i int, seed uint64) *c16Scenario {
 		f.Verb, f.Kind, f.AfterHook = "update", kind, true
 		sc.Features = append(sc.Features, "fault-on-metadata-write")
 	case 3:
+		sc.Ctl.Finalize = true
+		sc.Warmup = 0
 		f.Verb, f.Kind = []string{"get", "update"}[r.Intn(2)], kind
 		sc.Features = append(sc.Features, "fault-on-finalizer-phase")
 	default:
 		f = c16Faults[r.Intn(len(c16Faults))]
-		f.Verb, f.Kind, f.Nth = []string{"create", "delete", "update"}[r.Intn(3)], sc.Ctl.Attachments[0].Kind, r.Intn(2)
+		verb := []string{"create", "delete", "update"}[r.Intn(3)]
+		att := sc.Ctl.Attachments[0]
+		if verb == "create" {
+			sc.Warmup = 0
+		} else {
+			// the attachments exist; the hook then drops or changes them
+			sc.Warmup = 1
+			if verb == "update" {
+				att.Method = "InPlace"
+				sc.Ctl.Attachments[0] = att
+			}
+		}
+		sc.Hook.Attachments = []c16J{g.attachment(att, rule, "a0", 1), g.attachment(att, rule, "a1", 1)}
+		if verb != "create" {
+			h2 := sc.Hook
+			h2.Attachments = nil
+			if verb == "update" {
+				for _, a := range sc.Hook.Attachments {
+					a2 := runtime.DeepCopyJSON(a)
+					a2["data"], a2["spec"] = c16J{"k": "changed"}, c16J{"size": int64(9)}
+					if a2["kind"] == "ConfigMap" {
+						delete(a2, "spec")
+					} else {
+						delete(a2, "data")
+					}
+					h2.Attachments = append(h2.Attachments, a2)
+				}
+			}
+			sc.Hook2 = &h2
+		}
+		f.Verb, f.Kind, f.Nth = verb, att.Kind, r.Intn(2)
 		sc.Features = append(sc.Features, "fault-on-attachment")
 	}
 	sc.Features = append(sc.Features, fmt.Sprintf("fault-%d", f.Code))
@@ -899,9 +935,9 @@ func c16Corpus() []*c16Scenario {
 			lookalike("f-othermarker", ref(c16TargetUID, true), c16J{marker: "someone"}),
 			lookalike("f-otherowner", ref("uid-x", true), c16J{marker: "corpus5"}),
 			lookalike("f-plainref", ref(c16TargetUID, false), c16J{marker: "corpus5"}),
-			lookalike("f-ours", ref(c16TargetUID, true), c16J{marker: "corpus5"}),
 		},
-		Hook:      c16HookProgram{Kind: "const", Labels: map[string]*string{"mine": c16Str("1")}, Attachments: []c16J{cm("a0", "", "1")}},
+		Setup:     []c16ExtOp{{Op: "create", Data: lookalike("f-ours", ref(c16TargetUID, true), c16J{marker: "corpus5"})}},
+		Hook:      c16HookProgram{Kind: "const", Labels: map[string]*string{"mine": c16Str("1")}, Attachments: []c16J{cm("a0", "", "1"), cm("a1", "", "1")}},
 		OtherHook: &c16HookProgram{Kind: "const", Labels: map[string]*string{"other-owned": c16Str("1")}, Attachments: []c16J{cm("b0", "", "1"), cm("a0", "", "other")}},
 		Hook2:     &c16HookProgram{Kind: "const", Labels: map[string]*string{"mine": c16Str("2")}, Attachments: []c16J{}},
 		Warmup:    1, Rounds: []c16RoundSpec{{}, {}}})
